@@ -47,14 +47,25 @@ def _ConvertType(t: LinearIR.Type) -> WebAssembly.Type:
     raise Exception(f"Unsupported type: {t}")
 
 
+def _ConvertValueType(t: LinearIR.Type) -> WebAssembly.ValueType:
+    """Type of a parameter, result or local. Only the scalar types have a
+    WebAssembly value type; everything else is not supported (yet)."""
+    converted = _ConvertType(t)
+    if not isinstance(converted, WebAssembly.ValueType):
+        raise Exception(f"Unsupported type for a WebAssembly value: {t}")
+    return converted
+
+
 def _ConvertFunctionType(ft: LinearIR.FunctionType) -> WebAssembly.FunctionType:
     argTypes = []
     resultTypes = []
 
     for argType in ft.Arguments.values():
-        argTypes.append(_ConvertType(argType))
+        argTypes.append(_ConvertValueType(argType))
 
-    resultTypes.append(_ConvertType(ft.ReturnType))
+    # A function returning void has no results
+    if not ft.ReturnType.IsVoid():
+        resultTypes.append(_ConvertValueType(ft.ReturnType))
 
     return WebAssembly.FunctionType(argTypes, resultTypes)
 
@@ -251,7 +262,7 @@ class GenerateWasmVisitor(Visitor.DefaultVisitor):
         argCount = len(functionType.Arguments)
         for ref, t in valueReferenceTypes.items():
             valueReferenceToLocalMap[ref] = argCount + c.AddLocal(
-                WebAssembly.Local(_ConvertType(t))
+                WebAssembly.Local(_ConvertValueType(t))
             )
 
         ctx.SetReferenceToLocalMap(valueReferenceToLocalMap)
